@@ -16,6 +16,13 @@ before and after each call, and from the trace:
            script says; list after = list before - targets.
   always   a scheduler's doers list changes only through these calls
            (before of call k+1 == after of call k; final list == last after).
+  members  the listed doers are the running doers: a doer is never entered again while its lifecycle under that scheduler
+           is still open (one membership = one running generator), and every doer still listed by a scheduler that
+           was entered has itself been entered.  The calls may also come from a doer's ENTER context (Doer.enter(), the
+           code before the first yield of a generator function), i.e. while the scheduler is still entering its doers.
+  order    (clause of C03's statement, "within a cycle, due doers run at most once each, in enter order", which makes no
+           exception for doers added at run time; only C06's programs have the calls): within a cycle the doers of one
+           scheduler recur in the order in which their current lifecycles were entered.
 """
 from vlib import sched, schedgen
 from vlib.core import Result
@@ -23,12 +30,16 @@ from vlib.core import Result
 PID = "C06"
 RULE = ("cases: scheduler programs whose scripted steps call extend / remove (targets: self, live siblings by index, "
         "pool doers, duplicates in one list, already present, already removed, completed) on their own host - a Doist "
-        "or a DoDoer(always=True, tock 0); <= 6 leaves, pool <= 3, <= 6 steps, limit always set. non-trivial = a remove "
+        "or a DoDoer(always=True, tock 0) - from a recur step or from the doer's enter context (while the scheduler is still "
+        "entering its doers; also inside a pool DoDoer that is extended in at a later cycle); <= 6 leaves, pool <= 3, <= 6 steps, limit always set. non-trivial = a remove "
         "of a live doer that had not yet run in that cycle, or an extend and a remove in the same cycle, or >= 3 "
         "membership calls; distinct = canonical hash of the program")
 ASSUMPTIONS = ["calls are made only on the scheduler that is currently running the caller (documented use)",
                "never generated because the API leaves them undefined: removing a DoDoer from inside its own descendant; "
-               "re-adding a doer that is still running (after removing itself)"]
+               "re-adding a doer that is still running (after removing itself, or one that an extend() call still in "
+               "progress is about to enter); removing, from an enter context, a doer whose own extend() call triggered "
+               "that enter; a pool doer's own enter context making a call on the scheduler that is just adding it",
+               "a pair of doers of which one was added from the other's enter context (nested enters) is not ordered"]
 
 
 def dedupe(xs):
@@ -46,6 +57,8 @@ def judge(prog, run, r):
     ev = run.ev
     start = float(prog.get("tyme", 0.0))
     cyc_tyme = [start] + run.tymes
+    if members_running(run, r):
+        return
     hosts_last = {}
     initial = {"doist": None}
     removed_later = {}
@@ -60,7 +73,10 @@ def judge(prog, run, r):
                 host, hosts_last[host], c["before"], k))
             return
         w0, w1 = c["seq0"], c.get("seq1", len(ev))
-        win = ev[w0:w1]
+        # events inside the call, without those of calls nested in it (made from the enter context of a doer that this
+        # call enters, on whatever scheduler): they are judged with their own call
+        inner = [(cc["seq0"], cc.get("seq1", len(ev))) for cc in run.calls[k + 1:] if w0 <= cc["seq0"] < w1]
+        win = [e for e in ev[w0:w1] if not any(a <= e[0] < b for a, b in inner)]
         if c.get("exc"):
             hosts_last[host] = c.get("after", c["before"])
             continue      # a call that raised is judged by C01/C02 only
@@ -96,7 +112,9 @@ def judge(prog, run, r):
                         first = e
                         break
                 if first is not None:
-                    if first[3] != c["cycle"] + 1:
+                    # a call made from an enter context before the scheduler's first cycle: the next cycle is the first
+                    nextcyc = c["cycle"] if c.get("prerun") else c["cycle"] + 1
+                    if first[3] != nextcyc:
                         r.fail("C06/extend-first-recur-cycle", "%s extended in cycle %d first recurred in cycle %d" % (
                             n, c["cycle"], first[3]))
                         return
@@ -176,6 +194,8 @@ def judge(prog, run, r):
         if spec is None:
             continue
         rs = [e for e in ev if e[2] == n and e[1] == "R"]
+        if c.get("where") == "enter" or not any(e[0] < c["seq0"] for e in rs):
+            continue      # removed itself from its enter context: no script step to continue from
         idx = max(i for i, e in enumerate(rs) if e[0] < c["seq0"])
         more_steps = idx + 1 < len(spec["steps"]) or spec["end"][0] == "forever"
         y = spec["steps"][idx][1] if idx < len(spec["steps"]) else None
@@ -199,6 +219,58 @@ def judge(prog, run, r):
             r.fail("C06/list-changed-after-last-call", "%s.doers %r at the end, %r after its last call" % (
                 host, final, c["after"]))
             return
+    recur_order(run, r)
+
+
+def members_running(run, r):
+    """One membership = one running lifecycle; every listed doer of an entered scheduler has been entered."""
+    openl = {}
+    for e in run.ev:
+        seq, code, name = e[0], e[1], e[2]
+        if code == "E":
+            if name in openl:
+                r.fail("C06/member-entered-twice", "%s (host %s) was entered again (event %d, cycle %d) while the lifecycle "
+                       "entered at event %d was still running: two running generators for one membership" % (
+                           name, sched.lifecycle_host(run, name, seq), seq, e[3], openl[name]))
+                return True
+            openl[name] = seq
+        elif code == "X":
+            openl.pop(name, None)
+    if run.exc is None:
+        entered = {e[2] for e in run.ev if e[1] == "E"}
+        for host, lst in [("doist", run.doers)] + sorted(run.kids.items()):
+            if host != "doist" and host not in entered:
+                continue
+            for n in lst:
+                if n not in entered:
+                    r.fail("C06/member-never-entered", "%s is listed in %s.doers %r at the end of the run (never removed) "
+                           "but was never entered and never ran" % (n, host, lst))
+                    return True
+    return False
+
+
+def recur_order(run, r):
+    """Within a cycle the doers of one scheduler recur in the order their current lifecycles were entered."""
+    cur = {}        # name -> seq of the enter of its current lifecycle
+    hostof = {}     # (name, enter seq) -> scheduler running that lifecycle
+    last = {}       # (host, cycle) -> (name, enter seq) of the latest recur
+    extended = any(c["op"] == "extend" and not c.get("exc") for c in run.calls)
+    for e in run.ev:
+        seq, code, name, cyc = e[0], e[1], e[2], e[3]
+        if code == "E":
+            cur[name] = seq
+        elif code == "R" and name in cur:
+            lk = (name, cur[name])
+            if lk not in hostof:
+                hostof[lk] = sched.lifecycle_host(run, name, cur[name])
+            key = (hostof[lk], cyc)
+            prev = last.get(key)
+            if prev is not None and prev[1] > cur[name] and not sched.nested_enter(run, cur[name], name, prev[1]):
+                r.fail("C06/recur-order-after-extend" if extended else "C06/recur-order",
+                       "cycle %d under %s: %s (entered at event %d) recurred before %s (entered earlier, at event %d)" % (
+                           cyc, key[0], prev[0], prev[1], name, cur[name]))
+                return
+            last[key] = (name, cur[name])
 
 
 def _host_closed_before(run, c):
@@ -257,7 +329,10 @@ def _prog(draw_always):
 
 def searches(tier):
     q = tier == "quick"
-    return [("doist-host", schedgen.program(maxdepth=0, members=True, limit="always"), 1200 if q else 15000),
+    return [("enter-context-calls", schedgen.program(maxdepth=1, members=True, limit="always", always_ok=True,
+                                                     dd_tocks=(0.0,), dd_odds=3, force_always=True, enter_ops=True,
+                                                     min_leaves=2, max_steps=4), 400 if q else 8000),
+            ("doist-host", schedgen.program(maxdepth=0, members=True, limit="always"), 1200 if q else 15000),
             ("dodoer-always-host", _prog(True), 1200 if q else 15000),
             ("group-calls", schedgen.program(maxdepth=1, members=True, limit="always", always_ok=True, dd_tocks=(0.0,),
                                              dd_odds=2, force_always=True, group_ops=True, min_leaves=4, max_leaves=8,
